@@ -27,6 +27,14 @@ from ..engine import Query
 from ..lib.periph import VS, in_vsync
 
 PROP = "C50"
+
+# FINDINGS
+#   fixed in /repo by f57c673 "fix: restart the SPI bit counter after every completed word":
+#     SPIDeviceInterface.bit_count is Signal(range(word_size)) and was only reset by CS, so for word sizes that are not
+#     a power of two (3,5,6,7,...) the second and later words of one chip-select assertion completed after
+#     2**ceil(log2(word_size)) sample edges.  Caught by every_word, word_value, tx_bits (and reported_once) in every
+#     non-power-of-two configuration (e.g. bmc_w3_m11_lsb, bmc_w5_m01_msb, bmc_toggle_w3_m10_lsb).
+#   The scenario predicate kf_nonpow2_after_first_word describes that finding; no entry is open.
 ENCODED = ["luna/gateware/interface/spi.py: SPIDeviceInterface.spi_edge_detectors/elaborate "
            "(bit_count, current_rx/current_tx shifters, word_accepted/word_complete)"]
 ASSUMPTIONS = [
@@ -42,7 +50,7 @@ ASSUMPTIONS = [
 BOUNDS = "BMC from reset. Free layer (sck/sdi/cs/word_out free per cycle): word sizes 2-5 x all 8 mode/bit-order " \
          "combinations to two full words; 6,7,9 (2 modes each) and 8 (4 modes) to one word + the start of the next. " \
          "Restricted layer (SCK toggling every cycle, cs/sdi/word_out free): sizes 3,5,6,7,8,9 x 8 modes and 16 to three " \
-         "full words. Quick tier: a pairwise subset (sizes 3,4,5,8; every mode/bit order used at least once)"
+         "full words. Quick tier: free layer for sizes 3 and 5 (one mode each), restricted layer for sizes 3,4,5,8"
 OUTSIDE = "word sizes above 9 (16 in the restricted layer only); more than two words with irregular SCK; SDO of the first bit in transactions whose " \
           "first edge is a sample edge (CPHA=0 style first bit); metastability/synchronisation of SCK"
 
@@ -205,8 +213,7 @@ def queries(tier):
     mk = lambda *a: (lambda: SpiWordHarness(*a))
     # ---- layer 1: everything free every cycle, two full words reachable (K = 4*ws + 6)
     if quick:
-        free = [(3, 0, 0, True), (3, 1, 1, False), (4, 0, 1, True),
-                (5, 0, 0, True), (5, 0, 1, False), (5, 0, 1, True, True)]
+        free = [(3, 1, 1, False), (5, 0, 1, True)]
     else:
         free = [(ws, *md) for ws in (2, 3, 4, 5) for md in MODES] + \
                [(5, 0, 1, True, True), (4, 1, 0, True, True)]
@@ -216,7 +223,7 @@ def queries(tier):
                         covers=["word", "second_word", "tx_checked", "tx_second_word_one"],
                         desc=_desc(*cfg) + ": sck/sdi/cs/word_out free every cycle, two full words reachable"))
     # ---- layer 2: larger words, free every cycle, one full word and the start of the next (K = 2*ws + 10)
-    big = [(8, 1, 1, True)] if quick else \
+    big = [] if quick else \
           [(6, 0, 1, True), (6, 1, 0, False), (7, 0, 0, True), (7, 1, 1, False),
            (8, 0, 0, True), (8, 0, 1, False), (8, 1, 0, True), (8, 1, 1, False), (9, 0, 1, True), (9, 1, 0, False)]
     for cfg in big:
@@ -226,9 +233,9 @@ def queries(tier):
                         desc=_desc(*cfg) + ": sck/sdi/cs/word_out free every cycle, one word and the start of the next"))
     # ---- layer 3 (restricted): SCK toggles in every cycle; cs/sdi/word_out free; three full words
     if quick:
-        tog = [(8, 1, 1, True), (8, 0, 0, False), (5, 1, 0, True), (3, 1, 0, False), (4, 1, 0, False)]
+        tog = [(8, 1, 0, True), (5, 0, 0, False, True), (3, 1, 0, False), (4, 0, 1, True)]
     else:
-        tog = [(ws, *md) for ws in (3, 5, 6, 7, 8, 9) for md in MODES] + [(16, 1, 0, True), (16, 0, 1, False)]
+        tog = [(ws, *md) for ws in (3, 5, 6, 7, 8, 9) for md in MODES] + [(16, 1, 0, True), (16, 0, 1, False), (4, 0, 1, True), (5, 0, 0, False, True)]
     for cfg in tog:
         ws, cpol = cfg[0], cfg[1]
         qs.append(Query(f"bmc_toggle_{_tag(*cfg)}", mk(*cfg), 6 * ws + 8, split=False, timeout=900,
@@ -236,10 +243,11 @@ def queries(tier):
                         covers=["word", "second_word", "third_word", "tx_checked", "tx_second_word_one"],
                         desc=_desc(*cfg) + ": layer: SCK toggles in every cycle; cs/sdi/word_out free; three words"))
     # ---- witnesses: aborted partial word followed by a full word
-    for ws in ((3, 4) if quick else (3, 4, 5, 8)):
+    for ws in ((3,) if quick else (3, 4, 5, 8)):
         qs.append(Query(f"cover_abort_w{ws}", mk(ws, 0, 0, True), 2 * ws + 12, covers=["word_after_abort"], asserts=[],
                         split=False,
                         desc="witness: a word is reported after an earlier partial word was aborted by CS"))
-    qs.append(Query("cosim_w5", mk(5, 0, 1, True), 0, kind="cosim", cosim_cycles=300 if quick else 2000))
-    qs.append(Query("cosim_w8", mk(8, 1, 0, False), 0, kind="cosim", cosim_cycles=300 if quick else 2000))
+    qs.append(Query("cosim_w5", mk(5, 0, 1, True), 0, kind="cosim", cosim_cycles=150 if quick else 2000))
+    if not quick:
+        qs.append(Query("cosim_w8", mk(8, 1, 0, False), 0, kind="cosim", cosim_cycles=2000))
     return qs
